@@ -5,6 +5,7 @@ go 1.23.0
 require (
 	github.com/folbricht/desync v0.0.0
 	github.com/klauspost/compress v1.16.4
+	github.com/minio/minio-go/v6 v6.0.57
 	github.com/pkg/xattr v0.4.9
 	golang.org/x/sys v0.31.0
 )
@@ -30,7 +31,6 @@ require (
 	github.com/kr/fs v0.1.0 // indirect
 	github.com/mattn/go-runewidth v0.0.14 // indirect
 	github.com/minio/md5-simd v1.1.2 // indirect
-	github.com/minio/minio-go/v6 v6.0.57 // indirect
 	github.com/minio/sha256-simd v1.0.0 // indirect
 	github.com/mitchellh/go-homedir v1.1.0 // indirect
 	github.com/modern-go/concurrent v0.0.0-20180306012644-bacd9c7ef1dd // indirect
